@@ -268,6 +268,12 @@ func CompareFunctions(funcName string, oldResult, newResult diff.FingerprintResu
 		NewFingerprint: newResult.Fingerprint,
 	}
 
+	// The OVERSIZED marker is not a hash: two skipped functions say nothing about each other.
+	if oldResult.Fingerprint == diff.OversizedFingerprint || newResult.Fingerprint == diff.OversizedFingerprint {
+		d.Status = models.StatusModified
+		return d
+	}
+
 	if oldResult.Fingerprint == newResult.Fingerprint {
 		d.Status = models.StatusPreserved
 		d.FingerprintMatch = true
